@@ -1,10 +1,11 @@
 import Uhppote.Driver.SpecBCD
+import Uhppote.Driver.Order
 /-! `oracle`: evaluates the executable SPEC on the line protocol. Imports neither `Gen` nor
     `Model`, so it still builds when a regenerated file or a proof is broken. -/
 open Uhppote
 
 def handlers : List (List String → Option String) :=
-  [Driver.SpecBCD.handle]
+  [Driver.SpecBCD.handle, Driver.Order.spec]
 
 def handle (ts : List String) : String :=
   match handlers.findSome? (· ts) with
